@@ -55,4 +55,25 @@ def check(tier):
 
 
 def replay(obj):
-    return diff.replay_dl(obj)
+    if obj.get("kind") != "dl-post":
+        return diff.replay_dl(obj)
+    # re-run the single program with -p and compare the profile's TUPLES with the size named in the recorded message
+    wd = fresh_dir(PID + "-replay")
+    os.makedirs(os.path.join(wd, "f"))
+    os.makedirs(os.path.join(wd, "o"))
+    for r, lines in obj.get("facts", {}).items():
+        with open(os.path.join(wd, "f", r + ".facts"), "w") as f:
+            f.write("".join(l + "\n" for l in lines))
+    with open(os.path.join(wd, "p.dl"), "w") as f:
+        f.write(obj["program"])
+    prof = os.path.join(wd, "prof.json")
+    rc, so, se = sh([SOUFFLE, "--no-preprocessor", "-w", "-F", os.path.join(wd, "f"), "-D", os.path.join(wd, "o"), "-j", str(obj["config"]["jobs"]), "-p", prof, os.path.join(wd, "p.dl")], timeout=300)
+    rc2, tab, _ = sh([SOUFFLEPROF, prof, "-c", "rel"], timeout=300)
+    m = re.search(r"reports (\S+) tuples for relation (\S+) which holds (\d+)", obj.get("why", ""))
+    bad = True
+    if m:
+        for line in tab.splitlines():
+            f = line.split()
+            if f and f[-1] == m.group(2) and len(f) >= 11:
+                bad = f[6] != m.group(3)
+    return bad, tab[-1500:]
